@@ -2,7 +2,8 @@
 from reg._common import COMMON_ASSUME
 
 ENTRY = {
-    'lean_files': ['Props/C20.lean', 'Props/C02Concrete.lean', 'Props/C20Overlap.lean'],
+    'extractors': ['translate_py.py'],
+    'lean_files': ['Tables/SrcPyPipeline.lean', 'Props/C20.lean', 'Props/C02Concrete.lean', 'Props/C20Overlap.lean'],
     'lemma_files': ['Lemmas/Overlap.lean', 'Lemmas/Coverage.lean', 'Lemmas/PipelineInst.lean', 'Lemmas/Pipeline.lean', 'Lemmas/Predicates.lean', 'Model/Basic.lean', 'Model/Curve.lean',
                     'Model/Helpers.lean', 'Model/Newton.lean', 'Model/Locate.lean', 'Model/Geometric.lean', 'Model/GeometricInst.lean'],
     'script': 'props/c20.py',
